@@ -36,6 +36,22 @@ Definition pub_ecdsa := fseq [FBE 4; FConst [19]; FLen 1 FRest] FMPI.
 Definition pub_eddsa := fseq [FBE 4; FConst [22]; FLen 1 FRest] FMPI.
 Definition pub_ecdh := fseq [FBE 4; FConst [18]; FLen 1 FRest; FMPI] (FLen 1 (fseq [FConst [1]; FBE 1] (FBE 1))).
 Definition f_pubkey (tag : Z) (m : fmt) := pkt tag (versioned 4 m).
+(* secret keys (tag 5) and secret subkeys (tag 7), v4: the public part, then S2K usage:
+   0 = cleartext secret MPIs + two-octet checksum; 254 / 255 = cipher, S2K specifier, (hash, salt, count), IV + ciphertext
+   (the IV length depends on the cipher, so IV and ciphertext together are the rest of the packet);
+   GNU dummy (specifier 101): "GNU" marker and extension number *)
+Definition sec_plain (pub : fmt) (nsecret : nat) : fmt :=
+  FSeq pub (FSeq (FConst [0]) (fseq (repeat FMPI nsecret) (FFixed 2))).
+Definition sec_s2k_iter (pub : fmt) (usage : Z) : fmt :=
+  FSeq pub (fseq [FConst [usage]; FBE 1; FConst [3]; FBE 1; FFixed 8; FBE 1] FRest).
+Definition sec_s2k_salted (pub : fmt) (usage : Z) : fmt :=
+  FSeq pub (fseq [FConst [usage]; FBE 1; FConst [1]; FBE 1; FFixed 8] FRest).
+Definition sec_s2k_simple (pub : fmt) (usage : Z) : fmt :=
+  FSeq pub (fseq [FConst [usage]; FBE 1; FConst [0]; FBE 1] FRest).
+Definition sec_gnu_dummy (pub : fmt) : fmt :=
+  FSeq pub (fseq [FBE 1; FBE 1; FConst [101]; FBE 1; FConst [71; 78; 85]] FRest).
+Definition f_seckey (tag : Z) (m : fmt) := pkt tag (versioned 4 m).
+
 (* tag 8: algorithm + compressed octets; tag 9 / 18: ciphertext; tag 10: "PGP"; tag 19: SHA-1 *)
 Definition f_compressed := pkt 8 (FSeq (FBE 1) FRest).
 Definition f_sed := pkt 9 FRest.
@@ -60,7 +76,23 @@ Definition named_formats : list (string * fmt) :=
    ("sub_ecdsa", f_pubkey 14 pub_ecdsa); ("sub_eddsa", f_pubkey 14 pub_eddsa); ("sub_ecdh", f_pubkey 14 pub_ecdh);
    ("compressed", f_compressed); ("sed", f_sed); ("marker", f_marker); ("literal", f_literal); ("userid", f_userid);
    ("uattr", f_uattr); ("seipd", f_seipd); ("mdc", f_mdc);
-   ("opaque20", f_opaque 20); ("opaque60", f_opaque 60); ("subarea", f_subarea)]%string.
+   ("opaque20", f_opaque 20); ("opaque60", f_opaque 60); ("subarea", f_subarea);
+   ("sec_rsa_plain", f_seckey 5 (sec_plain pub_rsa 4)); ("sec_dsa_plain", f_seckey 5 (sec_plain pub_dsa 1));
+   ("sec_elg_plain", f_seckey 5 (sec_plain pub_elg 1)); ("sec_ecdsa_plain", f_seckey 5 (sec_plain pub_ecdsa 1));
+   ("sec_eddsa_plain", f_seckey 5 (sec_plain pub_eddsa 1)); ("sec_ecdh_plain", f_seckey 5 (sec_plain pub_ecdh 1));
+   ("ssb_rsa_plain", f_seckey 7 (sec_plain pub_rsa 4)); ("ssb_dsa_plain", f_seckey 7 (sec_plain pub_dsa 1));
+   ("ssb_elg_plain", f_seckey 7 (sec_plain pub_elg 1)); ("ssb_ecdsa_plain", f_seckey 7 (sec_plain pub_ecdsa 1));
+   ("ssb_eddsa_plain", f_seckey 7 (sec_plain pub_eddsa 1)); ("ssb_ecdh_plain", f_seckey 7 (sec_plain pub_ecdh 1));
+   ("sec_rsa_254", f_seckey 5 (sec_s2k_iter pub_rsa 254)); ("sec_dsa_254", f_seckey 5 (sec_s2k_iter pub_dsa 254));
+   ("sec_ecdsa_254", f_seckey 5 (sec_s2k_iter pub_ecdsa 254)); ("sec_eddsa_254", f_seckey 5 (sec_s2k_iter pub_eddsa 254));
+   ("sec_ecdh_254", f_seckey 5 (sec_s2k_iter pub_ecdh 254));
+   ("ssb_rsa_254", f_seckey 7 (sec_s2k_iter pub_rsa 254)); ("ssb_dsa_254", f_seckey 7 (sec_s2k_iter pub_dsa 254));
+   ("ssb_ecdsa_254", f_seckey 7 (sec_s2k_iter pub_ecdsa 254)); ("ssb_eddsa_254", f_seckey 7 (sec_s2k_iter pub_eddsa 254));
+   ("ssb_ecdh_254", f_seckey 7 (sec_s2k_iter pub_ecdh 254)); ("ssb_elg_254", f_seckey 7 (sec_s2k_iter pub_elg 254));
+   ("sec_rsa_255", f_seckey 5 (sec_s2k_iter pub_rsa 255)); ("sec_eddsa_255", f_seckey 5 (sec_s2k_iter pub_eddsa 255));
+   ("ssb_rsa_255", f_seckey 7 (sec_s2k_iter pub_rsa 255)); ("ssb_ecdh_255", f_seckey 7 (sec_s2k_iter pub_ecdh 255));
+   ("sec_rsa_254_salted", f_seckey 5 (sec_s2k_salted pub_rsa 254)); ("sec_rsa_254_simple", f_seckey 5 (sec_s2k_simple pub_rsa 254));
+   ("sec_rsa_gnu", f_seckey 5 (sec_gnu_dummy pub_rsa)); ("ssb_rsa_gnu", f_seckey 7 (sec_gnu_dummy pub_rsa))]%string.
 
 Definition all_formats : list fmt := map snd named_formats.
 
